@@ -132,15 +132,15 @@ theorem C09_safe_inv (c : Cfg) (hc : c.OK) (hs : SafeProgs c) (sched : List Tid)
   · have hf : Fresh c.init := fresh_init _ _ _ _ _ _ _ _ _ _ _ _ hf1 hf2
     have hne : NoEA c.init := noea_init _ _ _ _ _ _ _ _ _ _ _ _ hn
     have hci : CInv c.init := cinv_init _ _ _ _ _ _ _ _ _ _ _ _ hf4 hf3
-    have := inv_run_fresh _ sched ha hb hfi hm hd hf hne hci he
+    have := inv_run_fresh _ sched ha hb hfi hm hd (geninv_init _ _ _ _ _ _ _ _ _ _ _ _) hf hne hci he
     exact ⟨this.2.1, this.2.2.2.2.2⟩
 
 theorem C09_safe_reach (c : Cfg) (hc : c.OK) (hs : SafeProgs c) (sched : List Tid) (i : Id) (o : Obj)
-    (hr : Reach c.init i o) (hal : Held c.init o) : Reach (run c.init sched) i o := by
+    (hr : Reach c.init i o) (hal : o ∈ c.init.refs ∨ o ∈ c.init.pins) : Reach (run c.init sched) i o := by
   obtain ⟨ha, hb, hfi, hm, _⟩ := C09_init_invs c hc
   rcases hs with hn | ⟨hd, hn, hf1, hf2, hf3, hf4⟩
   · exact reach_run _ sched ha hb hfi hm (nocreate_init _ _ _ _ _ _ _ _ _ _ _ _ hn) i o hr hal
-  · exact reach_run_fresh _ sched ha hb hfi hm hd (fresh_init _ _ _ _ _ _ _ _ _ _ _ _ hf1 hf2)
+  · exact reach_run_fresh _ sched ha hb hfi hm hd (geninv_init _ _ _ _ _ _ _ _ _ _ _ _) (fresh_init _ _ _ _ _ _ _ _ _ _ _ _ hf1 hf2)
       (noea_init _ _ _ _ _ _ _ _ _ _ _ _ hn) (cinv_init _ _ _ _ _ _ _ _ _ _ _ _ hf4 hf3) i o hr hal
 
 /-! ## full theorems: every program, every schedule, any number of threads -/
@@ -244,6 +244,13 @@ theorem C09_no_exception_but_notfound_partial (c : Cfg) (hc : c.OK) (hn : SafePr
 example : (run (Cfg.init ⟨true, true, [(1, 0)], [], [1], 1, 100, 2, 0, 0, [0], fun t => if t < 2 then [.get 1] else []⟩)
     [0, 1, 0, 1, 0, 1, 0, 1]).stale = [] := by decide
 
+/-- `expire` is the only source of `stale`: in programs without it the `stale` provisos above are void -/
+theorem C09_stale_nil_without_expire (c : Cfg) (sched : List Tid) (h : ∀ t, ∀ op ∈ c.progs t, isEX op = false) :
+    (run c.init sched).stale = [] := by
+  rw [show (run c.init sched).stale = c.init.stale from
+    stale_run _ sched (noex_init _ _ _ _ _ _ _ _ _ _ _ _ h)]
+  rfl
+
 /-! ## the full statements are FALSE of the current code: concrete schedules (replayed on the real
     `cache.py` by harness/c09.py on every run) -/
 
@@ -262,11 +269,11 @@ theorem C09_wCreateGet_OK : wCreateGet.OK :=
   ⟨by decide, by intro i o p _ h2; simp [wCreateGet] at h2⟩
 
 /-- `expireAll` finished its copy loop, `created` inserts into the old dict, `self.cache = {}` drops it -/
-def schedLost : List Tid := [1, 1, 1, 1, 0, 0, 0, 0, 0, 0, 1, 1]
+def schedLost : List Tid := [1, 1, 1, 1, 0, 0, 0, 0, 0, 0, 0, 1, 1]
 /-- `created` inserts while `expireAll` iterates: the next `next()` raises RuntimeError -/
-def schedRuntimeError : List Tid := [1, 0, 0, 0, 0, 0, 0, 1, 1]
+def schedRuntimeError : List Tid := [1, 0, 0, 0, 0, 0, 0, 0, 1, 1]
 /-- INSERT, then the other thread's whole get (miss, SELECT finds the row), then `created` overwrites -/
-def schedTwo : List Tid := [0, 1, 1, 1, 1, 1, 1, 1, 1, 1, 1, 0, 0, 0, 0, 0]
+def schedTwo : List Tid := [0, 1, 1, 1, 1, 1, 1, 1, 1, 1, 1, 1, 0, 0, 0, 0, 0, 0]
 
 /-- FULL statement of "referenced objects stay reachable" (no restriction on programs): FALSE.
     Lock-free `created` vs the `self.cache = {}` swap of `expireAll`: thread 0 holds object 1 for row 7,
@@ -298,6 +305,14 @@ theorem C09_same_object_full_FALSE :
   have := h wCreateGet C09_wCreateGet_OK schedTwo 0 1 7 1 2 (by decide) (by decide) (by decide) (by decide)
   revert this
   decide
+
+/-- the finer form of the lost entry: `created` loads `self.cache` BEFORE `expireAll` rebinds it and stores
+    through the stale alias AFTER: the entry lands in the abandoned dict -/
+def schedLostAlias : List Tid := [0, 0, 0, 0, 0, 1, 1, 1, 1, 1, 1, 0, 0]
+
+example : ((run wCreateExpireAll.init schedLostAlias).th 0).outs = [.obj 7 1] ∧
+    ¬ Reach (run wCreateExpireAll.init schedLostAlias) 7 1 ∧
+    (run wCreateExpireAll.init schedLostAlias).olds = [] := by decide
 
 /-- the witnesses end in quiescence with the lock free (they are not deadlocks or half-run schedules) -/
 example : (∀ t, t < 2 → finished (run wCreateExpireAll.init schedLost) t = true) ∧
@@ -400,5 +415,28 @@ example : ((run wNoCache.init schedNoCache).th 0).outs = [.obj 4 1] ∧
     ((run wNoCache.init schedNoCache).th 1).outs = [.obj 4 1, .unit] ∧
     (run wNoCache.init schedNoCache).strong = [] := by
   decide
+
+/-! ## which dict an access uses: `self.cache` is re-read for every operation -/
+
+/-- a get of the weakly cached, still referenced row 3 racing with `expireAll` (which rebinds `self.cache`):
+    for EVERY schedule the getter ends with the instance the environment holds (object 1), and it stays reachable.
+    (An implementation that keeps an alias of `self.cache` across the lock acquisition revives the instance into
+    the abandoned dict; the harness replays that on the real code.) -/
+def wAlias : Cfg :=
+  ⟨true, true, [(1, 0)], [(3, 1)], [1, 3], 2, 100, 2, 0, 0, [0, 1], progsOf [[.get 3], [.expireAll]]⟩
+
+theorem C09_wAlias_OK : wAlias.OK :=
+  ⟨by decide, by intro i o p h1 h2; simp [wAlias, aget] at h1 h2; grind⟩
+
+example (sched : List Tid) (o : Obj) (h : Out.obj 3 o ∈ ((run wAlias.init sched).th 0).outs) : o = 1 :=
+  C09_same_object_as_initial_partial wAlias C09_wAlias_OK (C09_safe_of_list _ wAlias rfl (by decide)) sched 0 3 o 1 h
+    (Or.inr (by decide)) (by decide)
+    (by rw [C09_stale_nil_without_expire wAlias sched (all_of_list isEX _ (by decide))]; simp)
+    (by rw [C09_stale_nil_without_expire wAlias sched (all_of_list isEX _ (by decide))]; simp)
+
+/-- the unlocked probe may read the abandoned dict (load before the rebinding, lookup after it): it still finds
+    the instance, which `expireAll` had copied to `expiredCache` -/
+example : ((run (Cfg.init ⟨true, true, [(1, 0)], [], [1], 1, 100, 2, 0, 0, [0], progsOf [[.get 1], [.expireAll]]⟩)
+    [0, 0, 0, 0, 1, 1, 1, 1, 1, 1, 0]).th 0).outs = [.obj 1 0] := by decide
 
 end SqlObjVerif.Conc
